@@ -877,3 +877,75 @@ Proof.
   cbn [o_results o_final]. apply H. split; [reflexivity|].
   intros c. cbn. split; [reflexivity | split; [reflexivity | left; reflexivity]].
 Qed.
+
+(* the same facts, packaged for other properties (C21): what one call does to the root *)
+Lemma call_summary w c o t cfg m hist :
+  J (AOp c o :: t) cfg m hist ->
+  let cfg' := run w (call_steps c) cfg in
+  let r := last_res (c_done (g_clients cfg' c)) in
+  (result_eqb r ROk && result_eqb (guard w m o) ROk = true
+   /\ g_refs cfg' = effect m o /\ J t cfg' (effect m o) (m :: hist))
+  \/ (result_eqb r ROk && result_eqb (guard w m o) ROk = false
+      /\ g_refs cfg' = m /\ seq_explained w m hist o r = true /\ J t cfg' m hist).
+Proof.
+  intros [Hm Hc]. cbn zeta.
+  set (cfg' := run w (call_steps c) cfg).
+  destruct (Hc c) as [Hp [Ht Hv]].
+  destruct (g_clients cfg c) as [td p f v d] eqn:Ecl. cbn [c_pc c_todo c_view] in Hp, Ht, Hv. subst p.
+  rewrite progs_of_op, N.eqb_refl in Ht. cbn [app] in Ht. subst td.
+  destruct (run_char w c call_labels cfg) as [H1 H2].
+  change (map (fun l => (c, l)) call_labels) with (call_steps c) in H1, H2. fold cfg' in H1, H2.
+  unfold proj in H1. rewrite Ecl, Hm in H1.
+  change {| c_todo := o :: progs_of t c; c_pc := PIdle; c_first := f; c_view := v; c_done := d |}
+    with (mkc (o :: progs_of t c) PIdle f v d) in H1.
+  rewrite call_char in H1.
+  pose proof (call_fn_cases w m v o hist Hv) as Hcases.
+  destruct (call_fn w m v o) as [[[r g'] v'] ch] eqn:CF.
+  pose proof (f_equal (fun t => fst (fst t)) H1) as G. pose proof (f_equal snd H1) as C.
+  cbn [fst snd] in G, C. clear H1. rewrite C. unfold mkc. cbn [c_done]. rewrite last_res_snoc.
+  assert (Hothers : forall c', c' <> c ->
+            c_pc (g_clients cfg' c') = PIdle /\ c_todo (g_clients cfg' c') = progs_of t c'
+            /\ In (c_view (g_clients cfg' c')) (m :: hist)).
+  { intros c' Hne. rewrite H2 by exact Hne. destruct (Hc c') as [Q1 [Q2 Q3]].
+    rewrite progs_of_op in Q2. assert (E : (c =? c') = false) by (apply N.eqb_neq; congruence).
+    rewrite E in Q2. auto. }
+  destruct Hcases as [[Ht1 [Hg' Hv']] | [Ht1 [Hg' [Hv' Hex]]]].
+  - left. split; [exact Ht1 | split; [rewrite G; exact Hg'|]]. split; [rewrite G; exact Hg'|].
+    intros c'. destruct (N.eq_dec c' c) as [->|Hne].
+    + rewrite C. cbn [c_pc c_todo c_view]. subst v' g'.
+      split; [reflexivity | split; [reflexivity | left; reflexivity]].
+    + destruct (Hothers c' Hne) as [Q1 [Q2 Q3]]. split; [exact Q1 | split; [exact Q2 | right; exact Q3]].
+  - right. split; [exact Ht1 | split; [rewrite G; exact Hg' | split; [exact Hex|]]].
+    split; [rewrite G; exact Hg'|].
+    intros c'. destruct (N.eq_dec c' c) as [->|Hne].
+    + rewrite C. cbn [c_pc c_todo c_view]. split; [reflexivity | split; [reflexivity | exact Hv']].
+    + apply Hothers. exact Hne.
+Qed.
+
+Lemma rebase_summary w c t cfg m hist :
+  J (ARebase c :: t) cfg m hist ->
+  g_refs (step w cfg (c, SRebase)) = m /\ J t (step w cfg (c, SRebase)) m hist.
+Proof.
+  intros [Hm Hc].
+  destruct (step_char w cfg c SRebase) as [H1 H2]. unfold proj in H1.
+  destruct (Hc c) as [Hp [Ht Hv]].
+  cbn [cstep] in H1. rewrite Hp in H1.
+  pose proof (f_equal (fun t => fst (fst t)) H1) as G. pose proof (f_equal snd H1) as C.
+  cbn [fst snd] in G, C. split; [rewrite G; exact Hm|]. split; [rewrite G; exact Hm|].
+  intros c'. destruct (N.eq_dec c' c) as [->|Hne].
+  - rewrite C. cbn [c_pc c_todo c_view]. rewrite ?Hp, ?Ht, ?Hm. split; [reflexivity | split; [reflexivity | left; reflexivity]].
+  - rewrite H2 by exact Hne. apply Hc.
+Qed.
+
+Lemma init_J m0 acts : J acts (init m0 (progs_of acts)) m0 [].
+Proof. split; [reflexivity|]. intros c. cbn. split; [reflexivity | split; [reflexivity | left; reflexivity]]. Qed.
+
+(* a success reported by an operation other than fast-forward always took effect *)
+Lemma seq_explained_not_ok w m hist o :
+  (forall g, report o g = g) -> seq_explained w m hist o ROk = false.
+Proof.
+  intros Hrep. unfold seq_explained. cbn [result_eqb]. rewrite andb_false_r. cbn [andb]. rewrite orb_false_r.
+  unfold answered_in. destruct (existsb _ (m :: hist)) eqn:E; [|reflexivity].
+  apply existsb_exists in E as [st [_ E]]. cbn zeta in E. rewrite Hrep in E.
+  destruct (guard w st o); cbn in E; discriminate.
+Qed.
